@@ -31,6 +31,9 @@ def main():
             else:
                 obj = fitgen.make_discretizer("Discretizer", ds, cfg, copy=True, n_jobs=job["n_jobs"])
                 obj.fit(ds["X"], ds["y"])
+            for e in job.get("edits") or []:
+                if e[0] in obj.features:
+                    obj.update_discretizer(*e)
             Xt = obj.transform(ds["X"])
         for f in obj.features:
             out["features"][f] = {"order": fitgen.gl_wire(obj.values_orders[f]), "out": [fitgen.cell(v) for v in Xt[f].tolist()]}
